@@ -32,6 +32,7 @@ FIELD_SORTS: dict[str, tuple[tuple, object]] = {
     "memo_val": ((Ref, Int, Int, Ref), Ref),
     # heap containers with identity
     "elems": ((Ref,), RSeq),            # contents of a list object
+    "selems": ((Ref,), z3.SeqSort(Str)),  # contents of a list object that holds strings
     "setmem": ((Ref, Ref), Bool),       # membership of a set object
     "dmem": ((Ref, Ref), Bool),         # keys of a dict object keyed by references
     "dkeys": ((Ref,), RSeq),            # keys of a dict object in insertion order (dict used as an ordered set)
